@@ -150,6 +150,50 @@ TraceEnd ==
   /\ l' = l + 1
   /\ UNCHANGED <<mvars, devs, rundevs>>
 
+(***************************************************************************)
+(* Runs of compiled code recorded while /repo's own tests ran (hook H5):   *)
+(* only the inputs and the result are observable.  EngStart sets the       *)
+(* machine up from the recorded inputs (as Exec!InitFor does), Silent      *)
+(* steps it without consuming an event, EngEnd compares the recorded       *)
+(* result when the specification judges the run defined (C03 / C04: the    *)
+(* compiled engines agree with the ISA semantics; run-time errors of the   *)
+(* specification are outside the compiled engines' claim).                 *)
+(***************************************************************************)
+EngStart ==
+  /\ IsEv(l, "estart")
+  /\ LET c == CaseOf(Ev(l).case)
+         e == EnvFor(c)
+     IN /\ env' = e
+        /\ mem' = MemFor(c)
+        /\ pc' = 0
+        /\ reg' = [r \in 0..10 |-> IF r = 1 THEN R1For(c)
+                                    ELSE IF r = 10 THEN AddN(e.base[R_STACK], StackSize) ELSE Zero]
+        /\ rt' = [r \in 0..10 |-> IF r = 1 THEN R1Taint(c) ELSE IF r = 10 THEN "s" ELSE "u"]
+        /\ sw' = {} /\ frames' = <<>> /\ curFn' = 0
+        /\ status' = [k |-> "run", class |-> "", val |-> Zero]
+        /\ hlog' = <<>> /\ defd' = TRUE /\ steps' = 0
+  /\ l' = l + 1
+  /\ rundevs' = 0
+  /\ UNCHANGED devs
+
+SilentBound == 300000
+Silent ==
+  /\ IsEv(l, "eend")
+  /\ Running /\ steps < SilentBound
+  /\ StepD([ret |-> Zero, clob |-> [r \in 1..5 |-> reg[r]]], {})
+  /\ UNCHANGED <<l, devs, rundevs>>
+
+EngEnd ==
+  /\ IsEv(l, "eend")
+  /\ ~Running
+  /\ LET e == Ev(l) IN
+       (status.k = "ok" /\ defd /\ ~(e.engine = "jit" /\ HasLocalCall(Prog)))
+         => /\ e.k = "ok" /\ e.val = status.val
+            /\ e.pkt = mem[R_PKT]
+            /\ (env.c.vm = "mbuff" => e.mbuf = mem[R_MBUF])
+  /\ l' = l + 1
+  /\ UNCHANGED <<mvars, devs, rundevs>>
+
 TraceInit ==
   /\ l = 1
   /\ devs = 0 /\ rundevs = 0
@@ -160,7 +204,7 @@ TraceInit ==
   /\ status = [k |-> "idle", class |-> "", val |-> Zero]
   /\ hlog = <<>> /\ defd = TRUE /\ steps = 0
 
-TraceNext == TraceStart \/ TraceStep \/ TraceStepDev_JmpImmZeroExt \/ TraceEnd
+TraceNext == TraceStart \/ TraceStep \/ TraceStepDev_JmpImmZeroExt \/ TraceEnd \/ EngStart \/ Silent \/ EngEnd
 TraceSpec == TraceInit /\ [][TraceNext]_tvars
 
 \* high-water mark of the trace position (register 1), read by the postcondition
